@@ -15,6 +15,9 @@ From CG Require Import Spec.ShellDQ.
 From CG Require Import Model.Tables.
 From CG Require Import Model.EmitBash.
 From CG Require Import Spec.ScriptRead.
+From CG Require Import Model.Dot.
+From CG Require Import Spec.DotRead.
+From CG Require Import Spec.DotSpec.
 From CG Require Import Spec.Mistakes.
 From CG Require Import Spec.Warnings.
 From CG Require Import Model.Minimize.
@@ -28,6 +31,7 @@ From CG Require Import Model.Parser.
 From CG Require Import Spec.Printer.
 From CG Require Import Model.Ambiguity.
 From CG Require Import Model.Driver.
+From CG Require Model.DotOfRegex.
 (* add new Require lines above this line *)
 Require Import ExtrOcamlBasic ExtrOcamlString.
 Extraction Language OCaml.
@@ -51,6 +55,33 @@ Separate Extraction
   Tables.isomorphic_to
   EmitBash.script_of_dfa
   ScriptRead.read_stmts
+  Dot.of_dfa_with
+  Dot.of_regex_with
+  Dot.old
+  Dot.current
+  Dot.starts_at_zero
+  Dot.patched
+  Dot.mkvariant
+  Dot.escape_dot
+  Dot.escape_quotes
+  Dot.known_labels
+  Dot.known_subacc
+  Dot.known_phantom
+  Dot.known_rx
+  Dot.wf_cdfa
+  Dot.known_rx_all
+  Dot.rx_wf_b
+  Dot.rx_total_b
+  DotOfRegex.conv_regex
+  DotOfRegex.conv_pool
+  DotSpec.sub_ids
+  DotRead.read
+  DotRead.render_label
+  DotSpec.graph_of_dfa
+  DotSpec.view
+  DotSpec.compare
+  DotSpec.gdiff_ok
+  DotSpec.regex_missing
   Mistakes.present
   Mistakes.specs_have_command_plain
   Warnings.unused_plain
